@@ -15,7 +15,10 @@ VarCases == UNION {{[kind |-> k, depth |-> d, inject |-> SetToSeq(i), caller |->
 \* capabilities reached for from inside the template text (no opt-in key is written anywhere)
 JCases == {[kind |-> k, depth |-> 0, inject |-> <<>>, caller |-> c, env |-> e, pathclass |-> "outside", dirs |-> dm] :
                k \in {"jcmd", "jvars", "jfile"}, c \in BOOLEAN, e \in {"unset", "1"}, dm \in {"none", "source"}}
-ASSUME LET S == SetToSeq(ExtCases \cup VarCases \cup JCases) IN ndJsonSerialize(IOEnv.VERIF_OUT, [i \in 1..Len(S) |-> [id |-> i] @@ S[i]])
+\* a Python-object tag in the pipeline text, at four places of the document (depth = place), whatever the caller and the environment grant
+YCases == {[kind |-> "ytag", depth |-> d, inject |-> <<>>, caller |-> c, env |-> e, pathclass |-> "outside", dirs |-> "none"] :
+               d \in 0..3, c \in BOOLEAN, e \in {"unset", "1"}}
+ASSUME LET S == SetToSeq(ExtCases \cup VarCases \cup JCases \cup YCases) IN ndJsonSerialize(IOEnv.VERIF_OUT, [i \in 1..Len(S) |-> [id |-> i] @@ S[i]])
 Init == x = 0
 Next == UNCHANGED x
 =============================================================================
